@@ -443,9 +443,13 @@ class Decimal(Element):
 
     @unconvert.register
     def _unconvert_decimal(self, value: decimal.Decimal):
+        if not value.is_finite():
+            raise ValueError(f"'{value}' is not a finite number")
         if self.scale is not None and not value.same_quantum(self.scale):
             raise ValueError(f"'{value}' doesn't match scale={self.scale}")
-        return str(value)
+        # OFX amounts are plain decimal notation; str() would switch to
+        # exponent notation for e.g. Decimal("1E+2") or Decimal("0E-10")
+        return format(value, "f")
 
     @unconvert.register
     def _unconvert_none(self, value: None) -> None:
